@@ -247,3 +247,106 @@ pub fn finish(p: &Parts, mut body: RawMap, mut wits: RawMap) -> Vec<u8> {
     resign(&b, &mut wits);
     join(&Parts { head: p.head.clone(), body: b, wits: wits.encode(), tail: p.tail.clone() })
 }
+
+// ---------------------------------------------------------------- outputs / values
+
+/// raw `value` of a transaction output (legacy array form or post-Alonzo map form)
+pub fn output_value(out: &[u8]) -> Vec<u8> {
+    let mut d = Decoder::new(out);
+    match d.datatype().expect("dt") {
+        Type::Map | Type::MapIndef => RawMap::parse(out).get(1).expect("value").clone(),
+        _ => parse_array(out).1[1].clone(),
+    }
+}
+pub fn output_address(out: &[u8]) -> Vec<u8> {
+    let mut d = Decoder::new(out);
+    let raw = match d.datatype().expect("dt") {
+        Type::Map | Type::MapIndef => RawMap::parse(out).get(0).expect("addr").clone(),
+        _ => parse_array(out).1[0].clone(),
+    };
+    Decoder::new(&raw).bytes().expect("addr bytes").to_vec()
+}
+pub fn output_with_value(out: &[u8], value: &[u8]) -> Vec<u8> {
+    let mut d = Decoder::new(out);
+    match d.datatype().expect("dt") {
+        Type::Map | Type::MapIndef => { let mut m = RawMap::parse(out); m.set(1, value.to_vec()); m.encode() }
+        _ => { let (_, mut items) = parse_array(out); items[1] = value.to_vec(); encode_array(false, &items) }
+    }
+}
+/// coin of a raw value (`uint` or `[uint, multiasset]`)
+pub fn value_coin(v: &[u8]) -> u64 {
+    let mut d = Decoder::new(v);
+    match d.datatype().expect("dt") {
+        Type::Array | Type::ArrayIndef => { d.array().unwrap(); d.u64().expect("coin") }
+        _ => d.u64().expect("coin"),
+    }
+}
+pub fn value_with_coin(v: &[u8], coin: u64) -> Vec<u8> {
+    let mut d = Decoder::new(v);
+    match d.datatype().expect("dt") {
+        Type::Array | Type::ArrayIndef => { let (_, mut items) = parse_array(v); items[0] = enc_u64(coin); encode_array(false, &items) }
+        _ => enc_u64(coin),
+    }
+}
+/// multi-asset part of a raw value as (policy, asset name, quantity as i128) triples
+pub fn value_assets(v: &[u8]) -> Vec<(Vec<u8>, Vec<u8>, i128)> {
+    let mut d = Decoder::new(v);
+    match d.datatype().expect("dt") {
+        Type::Array | Type::ArrayIndef => { let (_, items) = parse_array(v); if items.len() < 2 { vec![] } else { parse_multiasset(&items[1]) } }
+        _ => vec![],
+    }
+}
+/// `{ policy => { name => int } }` (mint or value multi-asset) as triples, duplicates kept
+pub fn parse_multiasset(b: &[u8]) -> Vec<(Vec<u8>, Vec<u8>, i128)> {
+    let mut out = vec![];
+    let mut d = Decoder::new(b);
+    let n = d.map().expect("ma map");
+    let mut i = 0u64;
+    loop {
+        match n { Some(n) => if i >= n { break }, None => if d.datatype().unwrap() == Type::Break { break } }
+        let pol = d.bytes().expect("policy").to_vec();
+        let m = d.map().expect("assets");
+        let mut j = 0u64;
+        loop {
+            match m { Some(m) => if j >= m { break }, None => if d.datatype().unwrap() == Type::Break { d.skip().ok(); break } }
+            let name = d.bytes().expect("name").to_vec();
+            let q: i128 = match d.datatype().expect("dt") {
+                Type::U8 | Type::U16 | Type::U32 | Type::U64 => d.u64().unwrap() as i128,
+                _ => { let x = d.int().expect("int"); i128::from(x) }
+            };
+            out.push((pol.clone(), name, q));
+            j += 1;
+        }
+        i += 1;
+    }
+    out
+}
+pub fn encode_multiasset(ts: &[(Vec<u8>, Vec<u8>, i128)]) -> Vec<u8> {
+    // group by policy, first-appearance order
+    let mut pols: Vec<Vec<u8>> = vec![];
+    for (p, _, _) in ts { if !pols.contains(p) { pols.push(p.clone()); } }
+    let mut out = vec![];
+    let mut h = vec![]; Encoder::new(&mut h).map(pols.len() as u64).unwrap(); out.extend(h);
+    for p in &pols {
+        out.extend(enc_bytes(p));
+        let xs: Vec<&(Vec<u8>, Vec<u8>, i128)> = ts.iter().filter(|t| &t.0 == p).collect();
+        let mut h = vec![]; Encoder::new(&mut h).map(xs.len() as u64).unwrap(); out.extend(h);
+        for (_, n, q) in xs {
+            out.extend(enc_bytes(n));
+            out.extend(enc_int(*q));
+        }
+    }
+    out
+}
+/// CBOR integer in [-2^64, 2^64)
+pub fn enc_int(q: i128) -> Vec<u8> {
+    if q >= 0 { enc_u64(q as u64) } else {
+        let n = (-1 - q) as u64;
+        let mut b = enc_u64(n);
+        b[0] |= 0x20;
+        b
+    }
+}
+pub fn body_outputs(body: &RawMap) -> Vec<Vec<u8>> { body.get(1).map(|b| parse_array(b).1).unwrap_or_default() }
+pub fn set_body_outputs(body: &mut RawMap, outs: &[Vec<u8>]) { body.set(1, encode_array(false, outs)); }
+pub fn body_fee(body: &RawMap) -> u64 { dec_u64(body.get(2).expect("fee")) }
